@@ -308,10 +308,7 @@ theorem C03_recursion_fresh (s : State) (loops : List Frame) (locals : Dict) (re
 /-! ## 4. return from any loop depth -/
 
 /-- `EvalStack.trim h` keeps exactly the bottom `h` values -/
-theorem trimEval_bottom (top bot : List Val) : trimEval (top ++ bot) bot.length = top.drop top.length ++ bot := by
-  simp [trimEval]
-
-theorem trimEval_bottom' (top bot : List Val) : trimEval (top ++ bot) bot.length = bot := by
+theorem trimEval_bottom (top bot : List Val) : trimEval (top ++ bot) bot.length = bot := by
   simp [trimEval]
 
 /-- return with no enclosing loop frame -/
@@ -662,7 +659,7 @@ section Examples
 
 /-- two loop frames over an activation of `f` over another activation of `f` (recursion), with
 a global `x` hidden by the parameter `x` -/
-def exState : State :=
+def c03ExState : State :=
   { regs := initRegs
     stack := [.loop [] 3, .loop [(.counter, .int 2)] 1,
               .call [("x", .int 1)] 7, .loop [] 0, .call [("x", .int 5)] 3]
@@ -670,61 +667,61 @@ def exState : State :=
     eval := [.int 10, .int 20, .int 30, .int 40] }
 
 example : LoopsOnly [Frame.loop [] 3, .loop [(.counter, .int 2)] 1] := by decide
-example : exState.stack =
+example : c03ExState.stack =
     [Frame.loop [] 3, .loop [(.counter, .int 2)] 1] ++ .call [("x", .int 1)] 7 ::
       [.loop [] 0, .call [("x", .int 5)] 3] := rfl
 example : Dict.has [("x", Val.int 1)] "x" = true := by decide
-example : Dict.has [("x", Val.int 1)] "g" = false ∧ exState.globals.has "g" = true := by decide
-example : Dict.has [("x", Val.int 1)] "y" = false ∧ exState.globals.has "y" = false := by decide
-example : exState.constants.get "x" = none := rfl
+example : Dict.has [("x", Val.int 1)] "g" = false ∧ c03ExState.globals.has "g" = true := by decide
+example : Dict.has [("x", Val.int 1)] "y" = false ∧ c03ExState.globals.has "y" = false := by decide
+example : c03ExState.constants.get "x" = none := rfl
 
 /-- the parameter `x` is assigned under two loop frames: the hidden global keeps 9, the
 recursive caller's `x` keeps 5 -/
-example : (exState.putVariable "x" (.int 77)).stack =
+example : (c03ExState.putVariable "x" (.int 77)).stack =
       [.loop [] 3, .loop [(.counter, .int 2)] 1, .call [("x", .int 77)] 7, .loop [] 0,
        .call [("x", .int 5)] 3] ∧
-    (exState.putVariable "x" (.int 77)).globals = exState.globals := by
-  rw [C03_param_private exState [.loop [] 3, .loop [(.counter, .int 2)] 1] [("x", .int 1)] 7
+    (c03ExState.putVariable "x" (.int 77)).globals = c03ExState.globals := by
+  rw [C03_param_private c03ExState [.loop [] 3, .loop [(.counter, .int 2)] 1] [("x", .int 1)] 7
     [.loop [] 0, .call [("x", .int 5)] 3] "x" (.int 77) (by decide) rfl (by decide)]
   exact ⟨rfl, rfl⟩
 
 /-- `return` from under the two loop frames: back at 7, the caller's loop frame and
 activation intact, the evaluation stack cut to the height 1 recorded by the outer loop -/
-example : exState.doReturn.stack = [.loop [] 0, .call [("x", .int 5)] 3] ∧
-    exState.doReturn.pc = 7 ∧ exState.doReturn.eval = [.int 40] := by
-  rw [C03_return_any_depth exState [.loop [] 3, .loop [(.counter, .int 2)] 1] [("x", .int 1)] 7
+example : c03ExState.doReturn.stack = [.loop [] 0, .call [("x", .int 5)] 3] ∧
+    c03ExState.doReturn.pc = 7 ∧ c03ExState.doReturn.eval = [.int 40] := by
+  rw [C03_return_any_depth c03ExState [.loop [] 3, .loop [(.counter, .int 2)] 1] [("x", .int 1)] 7
     [.loop [] 0, .call [("x", .int 5)] 3] (by decide) rfl]
   exact ⟨rfl, rfl, rfl⟩
 
 /-- a calling sequence `f 5 g x` placed at address 2; the callee's parameters are named `g`
 and `x` like the variables the later arguments read -/
-def exArgs : Args := .cons (.lit (.int 5)) (.cons (.var "g") (.cons (.var "x") .nil))
-def exImg : Image :=
-  ⟨([Instr.nop, .nop] ++ Gen.genCall "f" ["g", "x", "z"] exArgs ++ [Instr.stop]).toArray, [("f", 40)]⟩
+def c03ExArgs : Args := .cons (.lit (.int 5)) (.cons (.var "g") (.cons (.var "x") .nil))
+def c03ExImg : Image :=
+  ⟨([Instr.nop, .nop] ++ Gen.genCall "f" ["g", "x", "z"] c03ExArgs ++ [Instr.stop]).toArray, [("f", 40)]⟩
 
-example : CodeAt exImg 2 (Gen.genCall "f" ["g", "x", "z"] exArgs) :=
-  CodeAt.intro [Instr.nop, .nop] (Gen.genCall "f" ["g", "x", "z"] exArgs) [Instr.stop] [("f", 40)]
-example : SimpleArgs exArgs := .cons (.lit _) (.cons (.var _) (.cons (.var _) .nil))
-example : NoResultReg exArgs := by simp [exArgs, NoResultReg]
-example : exImg.routine? "f" = some 40 := by decide
+example : CodeAt c03ExImg 2 (Gen.genCall "f" ["g", "x", "z"] c03ExArgs) :=
+  CodeAt.intro [Instr.nop, .nop] (Gen.genCall "f" ["g", "x", "z"] c03ExArgs) [Instr.stop] [("f", 40)]
+example : SimpleArgs c03ExArgs := .cons (.lit _) (.cons (.var _) (.cons (.var _) .nil))
+example : NoResultReg c03ExArgs := by simp [c03ExArgs, NoResultReg]
+example : c03ExImg.routine? "f" = some 40 := by decide
 /-- the arguments are read in the caller's scope: `g` is the global 2 and `x` the caller's
 parameter 1, although the callee's first parameter — already bound to 5 — is called `g` -/
-example : bindRead exState ["g", "x", "z"] exArgs [] =
+example : bindRead c03ExState ["g", "x", "z"] c03ExArgs [] =
     [("g", .int 5), ("x", .int 2), ("z", .int 1)] := by
-  simp [bindRead, exArgs, Rv.src, State.read, State.getVariable, exState, activation, Dict.get,
+  simp [bindRead, c03ExArgs, Rv.src, State.read, State.getVariable, c03ExState, activation, Dict.get,
     Dict.put]
 
 /-- the theorem applied: eight steps from address 2 enter `f` at 40 with return address 10 (the
 `END_CTX`) on top of the untouched stack -/
 example :
-    let s' := run exImg 8 { exState with pc := 2 }
-    s'.pc = 40 ∧ s'.stack = .call (bindRead exState ["g", "x", "z"] exArgs []) 10 :: exState.stack := by
-  have h := C03_call_sequence_original_state exImg { exState with pc := 2 } 2 "f" 40
-    ["g", "x", "z"] exArgs (.cons (.lit _) (.cons (.var _) (.cons (.var _) .nil)))
-    (by simp [exArgs, NoResultReg]) rfl rfl (by decide)
-    (CodeAt.intro [Instr.nop, .nop] (Gen.genCall "f" ["g", "x", "z"] exArgs) [Instr.stop] [("f", 40)])
-  have e : (Gen.genCall "f" ["g", "x", "z"] exArgs).length = 9 := by
-    simp [Gen.genCall, Gen.genParams, Gen.genRv, exArgs]
+    let s' := run c03ExImg 8 { c03ExState with pc := 2 }
+    s'.pc = 40 ∧ s'.stack = .call (bindRead c03ExState ["g", "x", "z"] c03ExArgs []) 10 :: c03ExState.stack := by
+  have h := C03_call_sequence_original_state c03ExImg { c03ExState with pc := 2 } 2 "f" 40
+    ["g", "x", "z"] c03ExArgs (.cons (.lit _) (.cons (.var _) (.cons (.var _) .nil)))
+    (by simp [c03ExArgs, NoResultReg]) rfl rfl (by decide)
+    (CodeAt.intro [Instr.nop, .nop] (Gen.genCall "f" ["g", "x", "z"] c03ExArgs) [Instr.stop] [("f", 40)])
+  have e : (Gen.genCall "f" ["g", "x", "z"] c03ExArgs).length = 9 := by
+    simp [Gen.genCall, Gen.genParams, Gen.genRv, c03ExArgs]
   simp only [e] at h
   exact ⟨h.1, h.2.1⟩
 
